@@ -108,7 +108,27 @@ def build(cfg, log_starts, log_aux, kseed):
         "ExactCplex(noopt)": lambda: ExactAlgorithmCplex(optimize=False),
         "ExactOptim1": lambda: ExactAlgorithmCplexForPaperOptim1(),
     }
-    return table[cfg]()
+    alg = table[cfg]()
+    if kseed % 3 == 2:
+        # the same configuration obtained through the library's factory get_algorithm(Algorithm.X, parameters)
+        try:
+            from corankco.algorithms.algorithm_choice import get_algorithm, Algorithm
+            kind = {BioConsert: Algorithm.BIOCONSERT, ParCons: Algorithm.PARCONS, ExactAlgorithm: Algorithm.EXACT,
+                    KwikSortRandom: Algorithm.KWIKSORTRANDOM}.get(type(alg))
+            if kind is not None:
+                params = {}
+                if type(alg) is BioConsert:
+                    params = {"starting_algorithms": list(alg._starting_algorithms)}
+                elif type(alg) is ParCons:
+                    params = {"auxiliary_algorithm": alg._auxiliary_alg, "bound_for_exact": alg._bound_for_exact}
+                elif type(alg) is ExactAlgorithm:
+                    params = {"optimize": cfg == "Exact(opt)"}
+                got = get_algorithm(kind, params)
+                if type(got) is type(alg):
+                    alg = got
+        except Exception:
+            pass
+    return alg
 
 
 NEEDS_CPLEX = ("ExactCplex(opt)", "ExactCplex(noopt)", "ExactOptim1")
@@ -192,8 +212,12 @@ def run_case(case):
             rec["sch"] = [tlc[0], tlc[1], 1]
         elif H:
             ss = SS([[float(H * b + b2) for b, b2 in zip(B, B2)], [float(H * t + t2) for t, t2 in zip(T, T2)]])
-        else:
+        elif uexp is not None:
             ss = SS(core.scheme_float(B, T, unit))
+        else:
+            ss = core.build_scheme(B, T, unit, case.get("schemeform", 0))
+        if case.get("mulk"):
+            ss = ss * (case["mulk"][0] / case["mulk"][1]) if case["kseed"] % 2 else (case["mulk"][0] / case["mulk"][1]) * ss
         rec["complete"] = 1 if ds.is_complete else 0
     except Exception as ex:
         rec["out"] = "error:construct:" + type(ex).__name__
@@ -217,7 +241,8 @@ def run_case(case):
         try:
             if reuse["kind"] == "mutate":
                 try:
-                    c0 = alg.compute_consensus_rankings(ds, ss, bool(case["flag"]))
+                    # the earlier call asks for the OTHER value of return_at_most_one_ranking in half of the cases
+                    c0 = alg.compute_consensus_rankings(ds, ss, bool(case["flag"]) != (case.get("kseed", 0) % 2 == 1))
                     _ = c0.kemeny_score
                     _ = c0.description()
                 except Exception:
